@@ -49,6 +49,24 @@ CLAIMS.update({
         ref="3/C08"),
 })
 
+CLAIMS.update({
+    "C06": dict(
+        text="Static, per-step obligations on all abstract paths: accepted => sent or stored; stored copy is the caller's packet with DUP set and alias stripped; erase/release only on the matching acknowledgement of the handler's own kind/version, a non-matching one writes nothing and is a ProtocolError; resume calls send_stored right after the CONNACK / clears the store when the session is not present; PUBREL stored and awaited; CONNACK on an established connection touches nothing. Not decided: that the store content over a whole history equals the set of unacknowledged messages (needs the history invariant).",
+        note=TB + "Known finding F15 (publish silently dropped in two offline configurations) listed in known_findings.jsonl. IndexMap insertion order is trusted for 'in store order'.",
+        technique="MIR abstract interpretation: must-pass-through / pairing rules on every path",
+        ref="3/C06"),
+    "C07": dict(
+        text="Static, per-step obligations: QoS 2 PUBLISH notified only when first seen (handled-set insert true), duplicates answered with PUBREC when connected; PUBREL and failing PUBREC release the mark; a first-seen message is notified or un-marked before return; new session empties the set; who-may-write reference list. Not decided: exactly-once over arbitrary histories (these are the inductive steps).",
+        note=TB + "Known finding F13 (mark left behind on the TopicAliasInvalid exits) listed in known_findings.jsonl.",
+        technique="MIR abstract interpretation: guard-dominates-notification and pairing rules on every path",
+        ref="3/C07"),
+    "C12": dict(
+        text="Static, inductive steps of the counter invariant on all paths: increment after the count==max test on every QoS>0 emission and stored re-emission, decrement exactly on exchange completion under the same guard and dominated by count>0 (no wrap/panic whatever the peer sends), refusal compares with the peer's value, vacancy is saturating, inbound len>=max test dominates insertion and delivery and answers with DISCONNECT 0x93. Not decided: numeric exactness of the count over whole histories.",
+        note=TB + "Uses the frame rule (accessor(mutator(x)) = accessor(x) when read/write field sets are disjoint, computed from MIR).",
+        technique="MIR abstract interpretation: counter discipline + guard dominance",
+        ref="3/C12"),
+})
+
 NOT_APPLICABLE = {
     "C20": "Refinement of a set model over all operation sequences plus the sorted/disjoint/merged representation invariant of a BTreeSet<ValueInterval> with a non-standard Ord: needs an inductive data-structure invariant no static abstract domain in reach expresses; a syntactic proxy would fire on behaviour-preserving rewrites. The out-of-range query clause is decided under C08-R5.",
 }
